@@ -13,6 +13,7 @@ from vlib import siblings, gen_json as G, gen_metadata as GM, gen_repodata as GR
 from vlib.ref_canon import canon, jeq
 from vlib import cfgunit as _cfgunit
 from vlib.runner import Unit, Violation
+from vlib import interfere as _interfere, interrupt as _interrupt
 
 PROPERTY = "C11"
 LEVEL = "exploration"
@@ -215,4 +216,5 @@ UNITS = [
     Unit("fixtures", check_fixture, enumerate=enum_fixtures, exhaustive=True, shards_quick=2,
          doc="the shipped repodata samples under three keys"),
     _cfgunit.unit_under_config(PROPERTY, 'sign', exclude=()),
+    _interfere.unit_after(PROPERTY, 'sign', quick=150, thorough=6000),
 ]
